@@ -256,7 +256,14 @@ impl<'a> Gen<'a> {
         match mode {
             ClientMode::Task => {
                 if base != How::AskJoin && base.cancel_after().is_none() && base.late().is_none() && !matches!(base, How::TellL { .. } | How::AskL { .. }) && self.ch.chance(self.p.p_task_block.0, self.p.p_task_block.1) {
-                    let t = self.timeout();
+                    // a blocking call made from inside an async task parks a runtime worker until it
+                    // returns; with an unbounded timeout that can starve the very actor it waits
+                    // for (a hazard of the caller's making, not of the library), so task clients
+                    // only use bounded timeouts
+                    let mut t = self.timeout();
+                    if t == MS_MAX {
+                        t = 2000;
+                    }
                     blockify(base, Some(t), false)
                 } else {
                     base
